@@ -817,6 +817,38 @@ func (e *c15Eval) intProbe(r *fw.Rand, s c15Scalar, x *big.Int, form int) string
 	return lit
 }
 
+// c15IntFloatNotation writes the integer x in a float notation (forms: "x.0", "xe0", "x.", "d.ddde+NN").
+func c15IntFloatNotation(x *big.Int, form int) string {
+	d := x.Text(10)
+	switch form % 4 {
+	case 0:
+		return d + ".0"
+	case 1:
+		return d + "e0"
+	case 2:
+		return d + "."
+	}
+	neg := ""
+	if strings.HasPrefix(d, "-") {
+		neg, d = "-", d[1:]
+	}
+	if len(d) == 1 {
+		return neg + d + "e+00"
+	}
+	return neg + d[:1] + "." + d[1:] + "e+" + strconv.Itoa(len(d)-1)
+}
+
+// intFloatNotationProbe: an integer literal outside the target's range stays outside it when it is written with a
+// decimal point or an exponent. Whether such a notation is accepted at all for in-range values is not judged; if it is
+// accepted, nothing may be wrapped, truncated or saturated.
+func (e *c15Eval) intFloatNotationProbe(r *fw.Rand, s c15Scalar, x *big.Int, form int) string {
+	lit := c15IntFloatNotation(x, form)
+	e.setAdd("int_literal_forms", "float-notation")
+	e.probeContexts(r, s, lit, x.Text(10))
+	e.count("out_of_range_integers_in_float_notation", 1)
+	return lit
+}
+
 // floatProbe: decimal float literal around/beyond the overflow threshold.
 func (e *c15Eval) floatProbe(r *fw.Rand, s c15Scalar, lit string, x *big.Rat) {
 	bits := s.floatBits()
@@ -957,6 +989,7 @@ func c15Corpus(w *fw.Worker) {
 			add(func(r *fw.Rand) int64 {
 				for _, x := range []*big.Int{new(big.Int).Sub(min, one), new(big.Int).Add(max, one)} {
 					e.intProbe(r, s, x, form)
+					e.intFloatNotationProbe(r, s, x, form)
 				}
 				for _, x := range []*big.Int{min, max} {
 					e.scalarRoundTrip(s, c15SetInt(s, x))
@@ -1285,7 +1318,11 @@ func runC15(w *fw.Worker) {
 			fam = "intprobe"
 			s := fw.Pick(r, c15IntScalars)
 			typ = s.name
-			text = e.intProbe(r, s, c15IntOut(r, s.bits(), s.isInt()), -1)
+			if r.Chance(25) {
+				text = e.intFloatNotationProbe(r, s, c15IntOut(r, s.bits(), s.isInt()), r.Intn(4))
+			} else {
+				text = e.intProbe(r, s, c15IntOut(r, s.bits(), s.isInt()), -1)
+			}
 		case p < 97:
 			fam = "floatprobe"
 			s := fw.Pick(r, append(append([]c15Scalar{}, c15FloatScalars...), c15ComplexScalars...))
